@@ -302,7 +302,7 @@ func drawNPlan(rt *rapid.T) nplan {
 		s := nstep{Name: rapid.IntRange(0, nn-1).Draw(rt, "name"), Key: rapid.IntRange(0, nUniverseKeys-1).Draw(rt, "key"),
 			Enc: rapid.IntRange(0, 2).Draw(rt, "enc"), Spell: rapid.IntRange(0, 2).Draw(rt, "spell")}
 		switch k := rapid.IntRange(0, 99).Draw(rt, "opkind"); {
-		case k < 30:
+		case k < 25:
 			s.Op = "add"
 		case k < 48:
 			s.Op = "update"
